@@ -345,7 +345,15 @@ def view_sqlite_raw(m):
 
 
 def accessor_snapshot(m, g, boxes, locs, quiet=True):
-    """every public read accessor of a map, in a canonical (order-free) form"""
+    """every public read accessor of a map, in a canonical (order-free) form; an accessor that raises is part of the
+    snapshot (a map that cannot answer differs from one that can)"""
+    try:
+        return _accessor_snapshot(m, g, boxes, locs)
+    except Exception as e:
+        return {'raised': f"{type(e).__name__}: {e}"[:200]}
+
+
+def _accessor_snapshot(m, g, boxes, locs):
     import io, contextlib
     out = {}
     with contextlib.redirect_stdout(io.StringIO()):
@@ -371,6 +379,8 @@ def accessor_snapshot(m, g, boxes, locs, quiet=True):
 
 
 def diff_snap(a, b, skip=()):
+    if 'raised' in a or 'raised' in b:
+        return ['raised'] if a.get('raised') != b.get('raised') else []
     return [k for k in a if k not in skip and a[k] != b[k]]
 
 
@@ -432,13 +442,15 @@ def case_C12(seed):
         sb = accessor_snapshot(sm, g, boxes, [])
         # in-memory neighbour listing keeps duplicates of the neighbour list; compare as sets of moves
         for s in (sa, sb):
+            if 'raised' in s:
+                continue
             s['nodes_nbrto'] = {k: sorted(set(v)) for k, v in s['nodes_nbrto'].items()}
             s['edges_nbrto'] = {k: sorted(set(v)) for k, v in s['edges_nbrto'].items()}
             s['all_edges'] = sorted(set(s['all_edges']))
         bad = diff_snap(sa, sb, skip=('crs', 'nodes_closeto', 'edges_closeto'))
         if bad:
             k = bad[0]
-            viol.append((f'C12:backends-differ:{k}', f"{k}{' (map queried, extended by add_node/add_edge, queried again)' if grown else ''}: in-memory {str(sa[k])[:300]} vs sqlite {str(sb[k])[:300]}",
+            viol.append((f'C12:backends-differ:{k}', f"{k}{' (map queried, extended by add_node/add_edge, queried again)' if grown else ''}: in-memory {str(sa.get(k))[:300]} vs sqlite {str(sb.get(k))[:300]}",
                          {'graph': {str(kk): [list(v[0]), v[1]] for kk, v in g.items()}, 'use_latlon': use_latlon, 'boxes': boxes, 'differs': bad,
                           'grown_after_first_queries': grown}))
         else:
